@@ -35,6 +35,9 @@ CLAIMS = {
 
  "C11": ("Structural necessary conditions of authorisation on every entry point: sinks dominated by the right permission check on every RTSP/HTTP/API chain (who-may-reach over the call graph + path-sensitive guard facts), grant-without-check paths decided by configuration only, path checked = path served, WSP data-channel join compared with the control session, rights recompiled from scratch, tokens from crypto/rand, access vs refresh token guards, per-request user. Does not decide digest arithmetic, expiry timing or the matcher language.",
          "call-graph who-may-reach + path-sensitive guard-fact analysis + SSA dependence", "DESIGN.md §3 C11"),
+
+ "C12": ("Structural necessary conditions of one-response-per-request and legal method order: interprocedural response counting with correlated boolean summaries (exactly one on every path), response construction only in newResponse with CSeq/Session, state assignments only in their handlers after success, handlers gated by onPreprocess, complete abstract evaluation of the state gate over status x method against the reference automaton (refusals 455 and pure), teardown releases. Does not decide transport/SDP validity or header content beyond CSeq/Session.",
+         "SSA path-state with interprocedural summaries + finite-domain abstract evaluation", "DESIGN.md §3 C12"),
 }
 NA = {
  "C16": "pure input/output language equivalence of the pattern matcher over all pattern/path pairs: truth lives in string values, no structural clause implies it; deciding it needs exhaustive evaluation (execution), a different technique family",
